@@ -75,16 +75,7 @@ def execute(case):
            "case_digest": common.digest8(case["program"]),
            "counters": {}, "sums": {}, "sets": {}}
     cnt = res["counters"]
-    cnt["strategy:" + (case.get("sched") or {}).get("kind", "S0")] = 1
     cnt["clock:" + case["program"]["clock"]] = 1
-    for k, v in r.faults.items():
-        cnt["fault:" + k] = v
-    if r.det.n_switch:
-        cnt["fault:preempt"] = r.det.n_switch
-    if r.det.n_timer_fire:
-        cnt["fault:timer_fire"] = r.det.n_timer_fire
-    res["sums"]["sim_wall_seconds"] = r.det.clock - r.det.t0
-    res["sums"]["yield_points"] = r.det.step
     if ref is not None:
         tr = [x for x in ref.trace]
         times = [t for t, _ in tr]
@@ -99,6 +90,7 @@ def execute(case):
         cnt["probe:refused_requests"] = sum(1 for q in ref.requests if q[2] == "refused")
         res["sums"]["sim_model_time"] = float(ref.end - ref.start)
         res["observed"] = {"trace": tr[:12]}
+    devscommon.detsim_stats(res, case, r)
     if findings:
         res["status"] = "violation"
         res["check_id"], res["message"] = findings[0]
